@@ -668,8 +668,15 @@ def _series_family(ctx, block):
     N = info["N"]
     ctx.tick(N, nontrivial=info.get("nontrivial_rows", 0))
     ctx.add("configurations", 1)
-    ctx.add("states", N * max(1, min(block.get("depth", 1), block["n_steps"] - 1)))
-    ctx.add("transitions", info["requests"])
+    # tree nodes = answer prefixes: sum_k |J|^k for a full tree, one per path for explicit rows
+    if block.get("rows") is None and block.get("n_paths") is None and block["n_steps"] > 1:
+        J = joint_size(gen_of(block), alpha_of(block))
+        nodes = sum(J ** k for k in range(1, min(block["depth"], block["n_steps"] - 1) + 1))
+    else:
+        nodes = N
+    ctx.add("states", nodes)
+    ctx.add("transitions", nodes)          # one incoming edge (a joint RNG answer) per node
+    ctx.add("rng_requests_answered", info["requests"])
     if status == "unsupported":
         ctx.add("unsupported_half_precision", 1)
         ctx.outcome(("unsupported", block["kind"], block["name"], str(info["eff"]), info["unsupported"]))
@@ -687,7 +694,11 @@ def _series_family(ctx, block):
                 ctx.outcome((block["name"], k, str(v.dtype), tuple(v.shape),
                              round(float(v.double().nan_to_num(nan=-7.0, posinf=1e300, neginf=-1e300)
                                          .clamp(-1e300, 1e300).mean()), 6)))
-        if len(ctx.samples) < ctx.sample_cap and block["init"]["form"] != "default" and N > 1:
+        if len(ctx.samples) < ctx.sample_cap and block["init"]["form"] != "default" and N > 1 \
+                and block["n_steps"] == 3 and not any(x.get("block", {}).get("name") == block["name"]
+                                                      for x in ctx.samples if isinstance(x, dict)) \
+                and block["name"] in ("heston", "kou_jump", "vasicek", "RoughBergomiStock", "CIRRate",
+                                      "MertonJumpStock"):
             r = N // 2
             ctx.sample({"family": ctx._family, "block": {k: v for k, v in block.items() if k != "rows"},
                         "row": r, "leaf(joint symbol index per level)": info["leaves"][r].tolist(),
@@ -1013,6 +1024,10 @@ def run(ctx):
     ctx.assume("overflow/underflow in a narrower dtype is judged against a float64 run of the same call with the "
                "same answers (range oracle): non-finite / zero values are accepted only on paths whose float64 "
                f"magnitude exceeds max/{RANGE_MARGIN:g} (resp. is below {RANGE_MARGIN:g}*tiny) of the dtype")
+    ctx.assume("half precisions: on paths where the half-precision trajectory has left the float64 one by more than "
+               "a factor 2 before its first non-finite value, a +-inf (never a NaN) is counted "
+               "(half_untracked_overflow_paths) and not judged - accuracy of half-precision recursions is not part "
+               "of the property")
     ctx.assume("half precision: only torch's '\"kernel\" not implemented for Half/BFloat16' errors are exempted "
                "(counted as unsupported_half_precision); every other exception is a violation")
     ctx.assume("time_horizon = k*dt with k*dt/dt == k exactly (grid rounding is C13's subject)")
@@ -1034,3 +1049,5 @@ def run(ctx):
             ctx.run("series_shape", b)
         for b in resim_blocks:
             ctx.run("resimulate", b)
+    if not ctx.samples:
+        ctx.sample({"note": "no configuration completed normally (see violations)", "first_block": tree_blocks[0]})
